@@ -948,6 +948,11 @@ def run(ctx: Context, rep) -> None:
         "created resources and the FlatBuffers builder: no scratch state on "
         "self carries values from one example into the next")
     check_writer_state(ctx, rep, "C01.state")
+    from sa.rules.c02 import check_reader_stateless
+    rep.rule("C01.reader-state", "no method of a shard reader class besides "
+             "__init__ stores into self: what is decoded for one shard cannot "
+             "be overwritten by reading another")
+    check_reader_stateless(ctx, rep, "C01.reader-state")
     # the tf.data interface of fb / npz datasets declares each attribute
     # with the dataset's own dtype and shape: from_generator casts to the
     # declared signature without a range check (uint64 declared as int64
